@@ -58,9 +58,22 @@ def gen_no_escape(src, FN):
         def h(ex, st, e, recv, args, kw, k, K): return k(st, fresh(name))
         return h
     def h_isinstance(ex, st, e, recv, args, kw, k, K): return k(st, PyBool(fresh('isinst', BoolSort())))
-    def h_coder(ex, st, e, recv, args, kw, k, K): return user_may_raise(ex, st, k, K)
+    dumps_of = Function('coder_dumps', Val, Val)
+    def h_coder(ex, st, e, recv, args, kw, k, K):
+        # coder.dumps(x) / coder.loads(y): user code, may raise. Ghost `roundtripped`: the value x for which loads(dumps(x)) has just SUCCEEDED.
+        if e.func.attr == 'dumps' and len(args) == 1: return user_may_raise(ex, st, k, K, val=dumps_of(to_val(args[0])))
+        if e.func.attr == 'loads' and len(args) == 1:
+            y = to_val(args[0]); ok = st.fork()
+            if y.decl().eq(dumps_of): ok.ghost = dict(ok.ghost); ok.ghost['roundtripped'] = y.arg(0)
+            k(ok, fresh('loaded')); f = st.fork(); return K['exc'](f, raise_any(f, 'Exception'))
+        return user_may_raise(ex, st, k, K)
     def h_supercls(ex, st, e, recv, args, kw, k, K): return user_may_raise(ex, st, k, K)
-    def h_append(ex, st, e, recv, args, kw, k, K): return k(st, None)
+    def h_append(ex, st, e, recv, args, kw, k, K):
+        if st.ghost.get('__fname') == 'ensure_serializable' and len(args) == 1:
+            v = to_val(args[0]); rt = st.ghost.get('roundtripped'); texts = st.ghost.get('safe_texts', ())
+            oblige(st, "ensure_serializable/keep: an argument is kept as it is only after it survived a FULL round trip through the coder (dumps and loads: what dumps accepts, loads may still reject); otherwise its text form is stored  [C19]",
+                   BoolVal(any(v.eq(t_) for t_ in texts)) if rt is None else Or(v == rt, BoolVal(any(v.eq(t_) for t_ in texts))))
+        return k(st, None)
     def h_id(ex, st, e, recv, args, kw, k, K): return k(st, PyInt(Val.a(to_val(args[0]))))
     def h_seen_add(ex, st, e, recv, args, kw, k, K):
         st.ghost = dict(st.ghost); st.ghost['SEEN'] = Store(st.ghost['SEEN'], ex.as_int(args[0]), True); return k(st, None)
@@ -71,7 +84,10 @@ def gen_no_escape(src, FN):
     K_false = K(IntSort(), False)
     # contracts of the repo functions (used at call sites; each is also verified below)
     def c_total(name):           # total function: returns a value, raises no Exception
-        def h(ex, st, e, recv, args, kw, k, K): return k(st, fresh(name))
+        def h(ex, st, e, recv, args, kw, k, K):
+            r = fresh(name)
+            if name == 'safe_repr': st.ghost = dict(st.ghost); st.ghost['safe_texts'] = tuple(st.ghost.get('safe_texts', ())) + (r,)
+            return k(st, r)
         return h
     def c_prepare_rec(ex, st, e, recv, args, kw, k, K):
         exc_v = to_val(args[0]); g = st.ghost
@@ -119,7 +135,7 @@ def gen_no_escape(src, FN):
     ex = Ex(H); ex.inline_scope = (src, REL, None)
     exits = collections.Counter()
     def verify(fname, env, ghost=None, pre=()):
-        st = State(); st.env = dict(env); st.ghost = dict(ghost or {}); st.pc = list(pre)
+        st = State(); st.env = dict(env); st.ghost = dict(ghost or {}); st.pc = list(pre); st.ghost['__fname'] = fname
         if 'exc' in env: st.ghost['self_exc'] = env['exc']
         S0 = st.ghost.get('SEEN')
         def on_ret(s, v):
